@@ -474,6 +474,8 @@ def build_configs(tier, seed):
             continue
         if rd in ('RefHex', 'RefWedge'):
             free = [0] if not quick else 'none'
+        if base == 'ElementHexRT1':
+            free = 'none'      # Piola map on a trilinear cell with a symbolic vertex: no verdict within 50 min (measured); numeric geometry, symbolic point
         big = nbfun(e) > 12
         if quick and (big or base in ('ElementTriP3', 'ElementTriP4', 'ElementTetCCR', 'ElementQuadP', 'ElementLinePp') and spec[-2:] not in ('1)', '2)')):
             if base not in ('ElementTriP3',):
